@@ -280,6 +280,32 @@ func (m *mach) builtinModel(fn *ssa.Function, args []mv) (mv, bool) {
 					return mNil, true
 				}
 			}
+		case "Search":
+			if n, ok := args[0].(int64); ok {
+				idx := sort.Search(int(n), func(i int) bool {
+					r := m.callValue(args[1], []mv{int64(i)})
+					b, ok := r.(bool)
+					if !ok {
+						m.abort("sort.Search: the predicate is outside the model")
+					}
+					return b
+				})
+				return int64(idx), true
+			}
+		case "SearchInts":
+			if sl, ok := args[0].(mSlice); ok {
+				if x, ok := args[1].(int64); ok {
+					var xs []int
+					for _, e := range sl.arr {
+						n, ok := e.(int64)
+						if !ok {
+							return nil, false
+						}
+						xs = append(xs, int(n))
+					}
+					return int64(sort.SearchInts(xs, int(x))), true
+				}
+			}
 		case "SearchStrings":
 			if sl, ok := args[0].(mSlice); ok {
 				if x, ok := args[1].(string); ok {
